@@ -63,15 +63,24 @@ META = {
                   "contracts.scm on every run and checked by a theorem. (6) Pruning: a used import is never pruned, "
                   "only unused generated ##mm imports that no macro mentions are (removal sites re-read from "
                   "analysis.rs). (7) Macros across modules: a require without modifiers binds exactly the provided "
-                  "macros; three violations of the property by the code are stated with witnesses (K14e, K14f, K14g). "
+                  "macros; the model follows find_in_scope_macros and the roll-back of the macro environment as they are "
+                  "since 0fe3fa8e / 3bef0920 (read from the source: rollback_and_macro_repairs_in_source, which also "
+                  "carries the fact that compile_main snapshots its roll-back state before anything in it can fail); "
+                  "one violation of the property by the code remains, with a witness (K14g). (8) Whether a request "
+                  "fails is an output of both machines where the module system decides it: a program that refers to "
+                  "a name its requires do not bind is rejected with a free identifier by M and by S alike "
+                  "(free_identifier_is_decided_by_the_machines; part of the refinement theorem). "
                   "The models are hand-written; they are tied to the code on every run by translators "
                   "(c14_constants.py, c14_tables.py + decide obligations) and by evaluating generated module trees "
                   "(diamonds, chains, shared private and provided names, all modifier nestings, contract/out on "
                   "functions of 1-6 parameters with higher-order contracts, violating callbacks and a counting "
                   "predicate (number of predicate evaluations per call from outside and from inside), re-exports, "
                   "macros provided as identifiers / for-syntax / private and used inside modules, module files in "
-                  "sub-directories required through different spellings of one path, failing requests, unknown "
-                  "require forms, several request orders) on a real Engine and comparing bindings, module-internal "
+                  "sub-directories required through different spellings of one path, programs that refer to names they "
+                  "may or may not have imported, failing requests of every kind (rejected by the reader, malformed "
+                  "macro definition, macro use that does not match, free identifier at build, run-time error) - also "
+                  "directly before and directly after the first require of a module with nothing evaluated in "
+                  "between, the module then required again -, unknown require forms, several request orders) on a real Engine and comparing bindings, module-internal "
                   "views, error kinds, instantiation counters, check counts and the real location of every private "
                   "define line by line; inside the guard of the refinement theorem the real engine must equal S "
                   "outright (no finding can be appealed to).",
@@ -82,13 +91,13 @@ META = {
                   "half-way, what macros expand to, blame labels, contracts of order > 2, built-in and resolver "
                   "modules are not modelled. The macro layer is outside the refinement theorem. Open findings: "
                   "K14c modifiers are flattened instead of composed (by design), K14d a mangled name can be written "
-                  "as |##mm...|, K14e require modifiers are not applied to provided macros (only-in does not hide "
-                  "them, prefix-in skips for-syntax provides), K14f the macros of a program that fails to compile or "
-                  "build stay in the engine, K14g an imported macro displaces (and a plain require even deletes) a "
-                  "module's own macro of the same name; candidate K14h (findings/C14-K14h.raw, not exercised by the "
-                  "check): a required module's private macros are applied to a whole expression of the requiring "
-                  "module once one of its provided macros fired there. Fixed by this check: d10f8017 (roll-back of "
-                  "table and metadata), 1587f6f5 (contract/out imports mangled).",
+                  "as |##mm...|, K14g an imported macro displaces (and a plain require even deletes) a module's own "
+                  "macro of the same name, K14h (witness findings/C14-K14h.raw replayed on every run, not modelled): "
+                  "a required module's private macros are applied to a whole expression of the requiring module once "
+                  "one of its provided macros fired there. Fixed by this check: d10f8017 (roll-back of table and "
+                  "metadata), 1587f6f5 (contract/out imports mangled), 0fe3fa8e (K14e: only-in / prefix-in apply to "
+                  "provided macros), 3bef0920 (K14f: the macros of a failed program are rolled back); their witnesses "
+                  "(corpus d01-d04, d06, d07) must equal S and are VIOLATIONs, named as regressions, if they return.",
 }
 
 VAL_NAMES = ["x", "y", "z", "w", "p"]
@@ -105,14 +114,22 @@ FN_ALIASES = ["ff", "g2"]
 # model switches of the driver that move M towards S, one per open finding (KNOWN_FINDINGS.txt)
 FIXES = {
     "K14c": ("m", "require_modifiers_flattened_not_composed"),
-    "K14e": ("e", "require_modifiers_not_applied_to_provided_macros"),
-    "K14f": ("f", "macros_of_a_failed_request_stay_in_scope"),
     "K14g": ("g", "imported_macro_displaces_own_macro_of_the_module"),
 }
 # defects that were fixed in /repo: the driver can re-introduce them, to name a regression
 LEGACY = {
     "R": "the roll-back defect fixed by d10f8017 (finding K14a, corpus d01/d02)",
     "C": "the unmangled contract/out imports fixed by 1587f6f5 (finding K14b, corpus d03/d04)",
+    "E": "require modifiers not applied to provided macros, fixed by 0fe3fa8e (finding K14e, corpus d06)",
+    "F": "the macros of a failed request staying in scope, fixed by 3bef0920 (finding K14f, corpus d07)",
+}
+
+
+# repairs that are in /repo and that the model reads from the source (translate/c14_tables.py): driver flags that
+# force them on
+REPAIRS = {
+    "e": "0fe3fa8e (K14e: only-in / prefix-in apply to provided macros)",
+    "f": "3bef0920 (K14f: the macros of a failed program are rolled back)",
 }
 
 
@@ -148,6 +165,8 @@ def case_text(c):
         out.append("request")
         out += ["req %s" % spec_text(s) for s in r["reqs"]]
         out += ["def %s" % d for d in r["defs"]]
+        if r.get("uses"):
+            out.append("use " + " ".join(r["uses"]))
         if r["mode"] != "ok":
             out.append("mode %s" % r["mode"])
         if r["obs"]:
@@ -330,8 +349,39 @@ def gen_requests(rng, mods, provs, nreq, weird, spell=False):
             specs = [respell(rng, q) for q in specs]
         defs = rng.sample(NAMES, rng.randint(1, 2)) if rng.random() < 0.3 else []
         u = rng.random()
-        mode = "ok" if u < 0.74 else "syntax" if u < 0.83 else "freeid" if u < 0.93 else "runtime"
-        reqs.append({"reqs": specs, "defs": defs, "mode": mode, "obs": []})
+        mode = ("ok" if u < 0.70 else "reader" if u < 0.74 else "macrodef" if u < 0.79 else "syntax" if u < 0.85
+                else "freeid" if u < 0.93 else "runtime")
+        # names the program itself refers to: what its requires bind (under the code's reading), its own defines,
+        # and names it may or may not have from elsewhere - whether it is rejected is for the machines to say
+        uses = []
+        if rng.random() < 0.35:
+            pool = [n for q in specs for n in flat_bound(q, provs)] + defs
+            pool = [n for n in pool if re.split(r"[.-]", n)[-1][:1] != "m"]
+            if pool and rng.random() < 0.7:
+                uses += rng.sample(pool, min(len(pool), rng.randint(1, 2)))
+            if rng.random() < 0.5:
+                uses.append(rng.choice(VAL_NAMES + FN_NAMES + [pf + n for pf in PREFIXES for n in VAL_NAMES[:2]]))
+        reqs.append({"reqs": specs, "defs": defs, "mode": mode, "obs": [], "uses": uses})
+    return reqs
+
+
+FAIL_KINDS = ["reader", "macrodef", "syntax", "freeid", "runtime"]
+
+
+def gen_failing_between(rng, mods):
+    """Every kind of failing evaluation directly before and directly after the FIRST require of a module, with
+    nothing evaluated in between (quiet requests: no observations), then the module required again: the body
+    counters say whether a rejected evaluation disturbed the module table."""
+    reqs = []
+    order = list(range(len(mods)))
+    rng.shuffle(order)
+    for k in order[:4]:
+        ka, kb = rng.choice(FAIL_KINDS), rng.choice(FAIL_KINDS)
+        with_req = lambda: [("path", k)] if rng.random() < 0.5 else []
+        reqs.append({"reqs": with_req(), "defs": [], "mode": ka, "obs": [], "quiet": True})
+        reqs.append({"reqs": [("path", k)], "defs": [], "mode": "ok", "obs": [], "quiet": True})
+        reqs.append({"reqs": with_req(), "defs": [], "mode": kb, "obs": [], "quiet": True})
+        reqs.append({"reqs": [("path", k)], "defs": [], "mode": "ok", "obs": []})
     return reqs
 
 
@@ -382,6 +432,12 @@ def gen_cases(rng, ngraphs, max_mods, orders, tag):
             for r in c["reqs"]:
                 r["obs"] = obs
             cases.append(c)
+        c = {"id": "%s%dg%dfk" % (tag, rng.randrange(10 ** 6), gi), "mods": mods,
+             "reqs": gen_failing_between(rng, mods), "shape": shape}
+        obs = observe_list(c)
+        for r in c["reqs"]:
+            r["obs"] = [] if r.get("quiet") else obs
+        cases.append(c)
     return cases
 
 
@@ -482,6 +538,18 @@ def classify(ctx, cid, text, real, variants, known_ids):
                 ids = sorted(k for k, (f, _) in FIXES.items() if f in combo)
                 missing = [k for k in ids if k not in known_ids]
                 return ("unlisted" if missing else "known"), ",".join(ids)
+    # the model follows the source: has a repair that /repo once had gone from the source again?
+    for n in range(1, len(REPAIRS) + 1):
+        for rep in itertools.combinations(sorted(REPAIRS), n):
+            for m in range(0, len(flags) + 1):
+                for combo in itertools.combinations(sorted(flags), m):
+                    rc, out, _ = driver("variant:" + "".join(rep) + "".join(combo), text)
+                    if rc == 0 and split_cases(out).get(cid) == spec:
+                        return "regression", ("real differs from S and equals the model of the code as the translator "
+                                              "reads it now; forcing %s back on%s yields S" % (
+                                                  " and ".join(REPAIRS[x] for x in rep),
+                                                  (" (with the open findings %s repaired)" % ",".join(
+                                                      k for k, (f, _) in FIXES.items() if f in combo)) if combo else ""))
     return "unexplained", "real == model of the code, but no combination of the known repairs yields S"
 
 
@@ -503,7 +571,7 @@ def first_diff(a, b):
 
 
 FIX_FLAGS = "".join(sorted(f for f, _ in FIXES.values()))
-VARIANT_KEYS = ["".join(c) for n in range(len(FIX_FLAGS) + 1) for c in itertools.combinations(FIX_FLAGS, n)] + ["R", "C"]
+VARIANT_KEYS = ["".join(c) for n in range(len(FIX_FLAGS) + 1) for c in itertools.combinations(FIX_FLAGS, n)] + sorted(LEGACY)
 
 
 def evaluate(ctx, texts, label, stats, known_ids):
@@ -548,6 +616,22 @@ def evaluate(ctx, texts, label, stats, known_ids):
         stats["cases"] += 1
         stats["spelled"] += 1 if re.search(r"^req \S*~", t, re.M) else 0
         stats["with_macros"] += 1 if re.search(r"^mac ", t, re.M) else 0
+        seen, prev_first_quiet = set(), False
+        for blk in re.findall(r"^request\n(.*?)^end$", t, re.M | re.S):
+            md = (re.search(r"^mode (\S+)", blk, re.M) or [None, "ok"])[1]
+            tg = set(re.findall(r"^req (?:[po]:[^:]*:)*(\d+)", blk, re.M))
+            quiet = not re.search(r"^obs ", blk, re.M)
+            if re.search(r"^use ", blk, re.M):
+                stats["requests_with_uses"] += 1
+            if md not in ("ok", "runtime"):
+                stats["fail_kinds"][md] = stats["fail_kinds"].get(md, 0) + 1
+                if prev_first_quiet:
+                    stats["fail_directly_after_first_require"][md] = stats["fail_directly_after_first_require"].get(md, 0) + 1
+            elif md == "runtime":
+                stats["fail_kinds"][md] = stats["fail_kinds"].get(md, 0) + 1
+            prev_first_quiet = md in ("ok", "runtime") and quiet and bool(tg - seen)
+            if md in ("ok", "runtime"):
+                seen |= tg
         stats["evaluations"] += t.count("\nrequest\n")
         stats["obs"] += sum(len(l.split()) - 1 for l in rl if l.startswith("obs"))
         for l in rl:
@@ -655,6 +739,7 @@ def new_stats():
     return {"cases": 0, "evaluations": 0, "obs": 0, "mangle_checked": 0, "mangle_bad": [], "status": {},
             "spec_kinds": {}, "nontrivial": set(), "class": {}, "samples": [], "known_hits": {},
             "pending": [], "bad": [], "poke_hits": [], "spelled": 0, "with_macros": 0,
+            "fail_kinds": {}, "fail_directly_after_first_require": {}, "requests_with_uses": 0,
             "guard": {"graphs_in_guard": 0, "graphs_outside": 0, "requests_in_guard": 0, "requests_total": 0}}
 
 
@@ -744,6 +829,23 @@ def run(ctx):
             ctx.violation("C14-K14d-%s.txt" % cid, open(os.path.join(C.VERIF, "findings", "C14-K14d.txt")).read()
                           if os.path.exists(os.path.join(C.VERIF, "findings", "C14-K14d.txt")) else
                           "case %s: %s (a module-private definition is readable through |##mm…|)\n" % (cid, l))
+    # the witness of a listed finding that the generated family does not reach (every name is probed in an
+    # expression of its own): replayed as it is, against the S answer recorded in the file
+    if "K14h" in known_ids:
+        ent = next(k for k in known if k.get("id") == "K14h")
+        wpath = os.path.join(C.VERIF, ent.get("replay", "findings/C14-K14h.raw"))
+        if os.path.exists(wpath):
+            wtxt = open(wpath).read()
+            want = (re.search(r"^# spec: (.*)$", wtxt, re.M) or [None, ""])[1].strip()
+            rc, out, err = C.run_bin([C.bin_path("c14"), "--raw", os.path.join(ctx.scratch, "raw")],
+                                     "".join(l + "\n" for l in wtxt.splitlines() if not l.startswith("#")), timeout=120)
+            got = (out.splitlines() or [""])[0].strip()
+            stats["k14h_witness"] = {"real": got, "spec": want}
+            if want and got != want:
+                ctx.known_finding("id=K14h class=%s replay=%s witness reproduces: real `%s`, S `%s`" % (
+                    ent.get("class"), ent.get("replay"), got, want))
+            else:
+                ctx.log("K14h: the witness no longer reproduces (real == S: %s)" % got)
     reported = set()
     for cid, kind, text, body in stats["bad"][:5]:
         if kind in reported:
@@ -786,6 +888,11 @@ def run(ctx):
         "translated_tables": tables,
         "cases_with_respelled_paths": stats["spelled"],
         "cases_with_macros": stats["with_macros"],
+        "K14h_witness": stats.get("k14h_witness"),
+        "failing_requests_by_kind": stats["fail_kinds"],
+        "requests_whose_program_refers_to_names": stats["requests_with_uses"],
+        "failing_request_directly_after_first_require_of_a_module_nothing_evaluated_between":
+            stats["fail_directly_after_first_require"],
         "refinement_guard": stats["guard"],
         "axioms": pr.get("axioms", {}),
         "proof_failures": ["%s: %s" % f for f in pr["failed"]],
